@@ -16,7 +16,8 @@ Ints == {I(neg, m) : neg \in BOOLEAN, m \in Mags}
 
 Positions == {"label", "hdr-label", "key-label", "claim-name", "hdr-alg", "key-alg", "kdf-alg", "kty", "content-format", "crit", "key-op",
               "nonce", "exp", "nbf", "iat", "kdl", "extra-value", "key-param-value", "claim-value",
-              "reg-alg", "reg-claim", "reg-hdrparam", "reg-keytype", "timestamp"}
+              "reg-alg", "reg-claim", "reg-hdrparam", "reg-keytype", "timestamp",
+              "sign-signer-label", "sign-signer-alg", "encrypt-recip2-label", "mac-recip-alg", "cs-label", "cs-array-alg", "keyset-label"}
 
 PartyNil == Arr(<<Nil, Nil, Nil>>)
 ItemAt(pos, n) ==
@@ -40,6 +41,14 @@ ItemAt(pos, n) ==
     [] pos = "key-param-value" -> Map(<< <<Nat2I(1), Nat2I(4)>>, <<Neg2I(1), n>> >>)
     [] pos = "claim-value" -> Map(<< <<Nat2I(8), n>> >>)
     [] pos \in {"reg-alg", "reg-claim", "reg-hdrparam", "reg-keytype", "timestamp"} -> n
+    (* nested positions: the same integers inside signers, recipients, counter-signatures and key sets *)
+    [] pos = "sign-signer-label" -> Arr(<<B0, EmptyMap, Nil, Arr(<<SigMin, Arr(<<B0, Map(<< <<n, Neg2I(7)>> >>), B0>>)>>)>>)
+    [] pos = "sign-signer-alg" -> Arr(<<B0, EmptyMap, Nil, Arr(<<Arr(<<B0, Map(<< <<Nat2I(1), n>> >>), B0>>)>>)>>)
+    [] pos = "encrypt-recip2-label" -> Arr(<<B0, EmptyMap, Nil, Arr(<<Arr(<<B0, EmptyMap, Nil, Arr(<<Arr(<<B0, Map(<< <<n, B1>> >>), Nil>>)>>)>>)>>)>>)
+    [] pos = "mac-recip-alg" -> Arr(<<B0, EmptyMap, B1, B1, Arr(<<Arr(<<B0, Map(<< <<Nat2I(1), n>> >>), Nil>>)>>)>>)
+    [] pos = "cs-label" -> Map(<< <<Nat2I(7), Arr(<<B0, Map(<< <<n, Nat2I(1)>> >>), B0>>)>> >>)
+    [] pos = "cs-array-alg" -> Map(<< <<Nat2I(7), Arr(<<SigMin, Arr(<<B0, Map(<< <<Nat2I(1), n>> >>), B0>>)>>)>> >>)
+    [] pos = "keyset-label" -> Arr(<<Map(<< <<Nat2I(1), Nat2I(4)>> >>), Map(<< <<Nat2I(1), Nat2I(4)>>, <<n, B1>> >>)>>)
 TyAt(pos) ==
   CASE pos = "label" -> <<"Label", "">>
     [] pos \in {"hdr-label", "hdr-alg", "content-format", "crit", "extra-value"} -> <<"Header", "">>
@@ -53,6 +62,11 @@ TyAt(pos) ==
     [] pos = "reg-hdrparam" -> <<"RegisteredLabel", "HeaderParameter">>
     [] pos = "reg-keytype" -> <<"RegisteredLabel", "KeyType">>
     [] pos = "timestamp" -> <<"Timestamp", "">>
+    [] pos \in {"sign-signer-label", "sign-signer-alg"} -> <<"CoseSign", "">>
+    [] pos = "encrypt-recip2-label" -> <<"CoseEncrypt", "">>
+    [] pos = "mac-recip-alg" -> <<"CoseMac", "">>
+    [] pos \in {"cs-label", "cs-array-alg"} -> <<"Header", "">>
+    [] pos = "keyset-label" -> <<"CoseKeySet", "">>
 (* positions whose integer the crate interprets, and the range it supports there *)
 Supported(pos, n) ==
   IF pos \in {"extra-value", "key-param-value", "claim-value"} THEN TRUE
